@@ -368,6 +368,7 @@ def exec_solo(jobs, cfg, order_seed):
                     _, a1, k1 = clone_loads(bl)
                     ops.invoke(e1.kind, e1.target, obj, a1, k1)
                 _, a2, k2 = clone_loads(blob)
+                k2 = {k: k2[k] for k in reversed(list(k2))}       # equal keywords, spelled in the opposite order
                 twin = _call(e, obj, a2, k2)
             except Exception:
                 twin = None
@@ -386,10 +387,10 @@ def exec_solo(jobs, cfg, order_seed):
                 return memo[id(o)]
             r2 = tw(recv) if recv is not None else None
             a2 = [tw(a) for a in args]
-            k2 = {k: tw(v) for k, v in kwargs.items()}
-            n = sum(1 for x, y in zip([recv] + list(args) + list(kwargs.values()),
+            k2 = {k: tw(kwargs[k]) for k in reversed(list(kwargs))}      # equal keywords, spelled in the opposite order
+            n = sum(1 for x, y in zip([recv] + list(args) + [kwargs[k] for k in k2],
                                        [r2] + a2 + list(k2.values())) if x is not y)
-            if n:
+            if n or len(k2) > 1:
                 twin = _call(e, r2, a2, k2)
         out[op_id] = (base[0], base[1], base[2], twin)
     return out
@@ -425,6 +426,9 @@ def compare(sres, solo):
     return v, nonfinite
 
 
+SOLO_GROUPS = 8
+
+
 def run_plan(source, timeout=300.0):
     """Execute one run (pass S + solo) from a decision source; returns result dict
     with 'violations' covering all oracles."""
@@ -434,10 +438,29 @@ def run_plan(source, timeout=300.0):
     jobs = [(r['id'], r['name'], sres['clones'][r['id']], sres['op_recipe'].get(r['id'])) for r in sres['records']
             if r['outcome'] in ('ok', 'exc') and r['id'] in sres['clones']]
     order_seed = source.seed ^ 0x5DEECE66D
-    solo = fork_call(exec_solo, (jobs, source.cfg, order_seed), timeout)
+    mode = os.environ.get('VERIF_SOLO', 'groups')
+    if mode == 'batch':
+        # (diagnostic) all reference calls of the run in ONE pristine fork, in seeded shuffled order
+        solo = fork_call(exec_solo, (jobs, source.cfg, order_seed), timeout)
+    elif mode == 'alone':
+        # (diagnostic, 3x slower) every reference call alone in its own pristine fork
+        solo = {}
+        for j in jobs:
+            solo.update(fork_call(exec_solo, ([j], source.cfg, 0), timeout))
+    else:
+        # the reference calls are dealt round-robin, in the order the run issued them, over up to SOLO_GROUPS
+        # pristine forks (shuffled inside each): calls the run made one after the other - a repeat, a neighbour,
+        # the steps of a scan - get their reference results in DIFFERENT processes, so state that one of them
+        # leaves behind (a memo, a patched table) cannot make the reference agree with the simulated history
+        g = max(1, min(SOLO_GROUPS, len(jobs) // 3))
+        solo = {}
+        for k in range(g):
+            part = jobs[k::g]
+            if part:
+                solo.update(fork_call(exec_solo, (part, source.cfg, order_seed + k), timeout))
     v2, nonfinite = compare(sres, solo)
     for v in v2:
-        # confirm against a single-call pristine fork
+        # confirm in another single-call pristine fork
         one = [j for j in jobs if j[0] == v['op']]
         alone = fork_call(exec_solo, (one, source.cfg, 0), timeout)
         a = alone.get(v['op'])
